@@ -87,6 +87,22 @@ static void alloc_case(const std::vector<Op> &ops, pbt::Ctx &ctx)
       d[i] = i;
     memory::alignedFree(d);
   }
+  // element counts whose byte size does not fit size_t: no block can be "usable for the full size", so the only
+  // admissible answer is null (a count taken from a file header, say)
+  if (!ops.empty()) {
+    const size_t counts[] = {((size_t)1 << 61) + 1, (size_t)1 << 61, SIZE_MAX / 8 + 1, SIZE_MAX, ((size_t)1 << 62) + 3};
+    const size_t n = counts[(size_t)ops[0].c % 5];
+    const size_t align = (size_t)1 << (ops[0].b % 13);
+    double *d = memory::alignedMalloc<double>(n, align);
+    PBT_ASSERT_MSG(d == nullptr, "alignedMalloc<double>(" << n << ", " << align << ") returned a block although " << n << " * 8 bytes do not fit in size_t");
+    struct P12
+    {
+      float a, b, c;
+    };
+    P12 *q = memory::alignedMalloc<P12>(SIZE_MAX / 12 + 1 + (size_t)ops[0].a % 3, align);
+    PBT_ASSERT_MSG(q == nullptr, "alignedMalloc<12-byte struct>(SIZE_MAX/12 + k) returned a block");
+    ctx.label("typed helper with an element count that overflows");
+  }
   if (mixedFree)
     ctx.label("free-among-different-alignments");
   ctx.nt(mixedFree);
@@ -119,6 +135,17 @@ struct Ring
   }
   bool operator==(const Ring &o) const { return v == o.v && self == &v && o.self == &o.v; }
 };
+// element type with a "greedy" initializer_list constructor (JSON-like values, vectors of variants): T{t} is NOT a copy
+// of t for such a type but a one-element list containing it - an allocator must construct with T(t)
+struct Nest
+{
+  int tag = 0;
+  std::vector<Nest> kids;
+  Nest() = default;
+  explicit Nest(int t) : tag(t) {}
+  Nest(std::initializer_list<Nest> l) : tag(-1), kids(l) {}
+  bool operator==(const Nest &o) const { return tag == o.tag && kids == o.kids; }
+};
 template <class T>
 struct Mk
 {
@@ -139,6 +166,11 @@ struct Mk<Pod72>
       p.d[i] = v * 10 + i;
     return p;
   }
+};
+template <>
+struct Mk<Nest>
+{
+  static Nest make(int v) { return Nest(v); }
 };
 template <>
 struct Mk<Ring>
@@ -316,10 +348,21 @@ static void allocator_contract(const std::tuple<int, long long> &c, pbt::Ctx &ct
   }
   if (p)
     al.deallocate(p, n);
-  // hinted overload and comparisons
+  // hinted overload (what std::allocator_traits::allocate(a, n, hint) calls): same contract as allocate(n)
   T *q = al.allocate(3, (const int *)nullptr);
   PBT_ASSERT(q && reinterpret_cast<uintptr_t>(q) % 64 == 0);
   al.deallocate(q, 3);
+  if (n > maxN) {
+    bool lengthError = false;
+    T *h = nullptr;
+    try {
+      h = al.allocate(n, (const T *)q);
+    } catch (const std::length_error &) {
+      lengthError = true;
+    } catch (const std::bad_alloc &) {
+    }
+    PBT_ASSERT_MSG(lengthError, "allocate(" << n << ", hint) exceeds max_size() " << maxN << " and must throw length_error" << (h ? " but returned a block" : ""));
+  }
   PBT_ASSERT(al == containers::aligned_allocator<T>() && !(al != containers::aligned_allocator<T>()));
   ctx.nt(n > maxN || n == 0 || n == maxN);
   ctx.label(n > maxN ? "over-max" : n == 0 ? "zero" : n > ((size_t)1 << 46) / sizeof(T) ? "huge" : "normal");
@@ -337,6 +380,7 @@ static void register_properties()
   pbt::property<std::vector<Op>>("aligned_vector_pod72", 500, vops, vector_case<Pod72>);
   pbt::property<std::vector<Op>>("aligned_vector_tracked", 800, vops, vector_case<Tracked>);
   pbt::property<std::vector<Op>>("aligned_vector_selfptr", 500, vops, vector_case<Ring>);
+  pbt::property<std::vector<Op>>("aligned_vector_initlist_type", 500, vops, vector_case<Nest>);
   auto ac = gen::tuple(pbt::range<int>(0, 6), pbt::range<long long>(0, 1000000));
   pbt::property<std::tuple<int, long long>>("allocator_contract_char", 200, ac, allocator_contract<char>);
   pbt::property<std::tuple<int, long long>>("allocator_contract_double", 200, ac, allocator_contract<double>);
